@@ -287,6 +287,10 @@ def gen_scenario(rng):
                 own.append({"sym": sym, "td": td, "sd": sd, "qty": q, "price": price,
                             "comm": Fraction(rng.randint(0, 2500), 100) if rng.random() < 0.8 else None,
                             "fee": Fraction(rng.randint(1, 40), 100) if (rng.random() < 0.8 or era == "pre") else None, "for": bi})
+            if len(own) == 2 and sold % 2 == 0 and rng.random() < 0.35:
+                # two fills that are equal in every printed field (separate confirmations of identical content)
+                own[0]["qty"] = own[1]["qty"] = sold // 2
+                own[1] = dict(own[0])
             tot = sum(t["qty"] * t["price"] for t in own)
             b["sale_price"] = Fraction(int(tot / sold * 10 ** 6), 10 ** 6)
         else:
@@ -302,6 +306,9 @@ def gen_scenario(rng):
         price = Fraction(int(price * 1000), 1000) if era == "post" else Fraction(int(price * 100), 100)
         trades.append({"sym": rng.choice(syms), "td": td, "sd": td + datetime.timedelta(days=2), "qty": q, "price": price,
                        "comm": Fraction(495, 100), "fee": Fraction(rng.randint(1, 30), 100), "for": None})
+    manual = [t for t in trades if t["for"] is None]
+    if manual and rng.random() < 0.25:
+        trades.append(dict(rng.choice(manual)))       # the same order filled twice: two confirmations of identical content
     consistent = True
     if rng.random() < 0.2 and any(t["for"] is not None for t in trades):
         # lose one sell-to-cover confirmation
